@@ -21,6 +21,8 @@ type mutant struct {
 	File     string `json:"file"`
 	Find     string `json:"find"`
 	Replace  string `json:"replace"`
+	Find2    string `json:"find2,omitempty"` // optional second edit in the same file (a declaration and its use)
+	Replace2 string `json:"replace2,omitempty"`
 	Note     string `json:"note"`
 	Kind     string `json:"kind"` // "break" (must be detected) | "equiv" (behaviour-preserving: must stay silent)
 }
@@ -108,6 +110,13 @@ func runOneMutant(self string, m mutant, repo, verifDir string) mutantResult {
 		return res
 	}
 	mutated := strings.Replace(string(src), m.Find, m.Replace, 1)
+	if m.Find2 != "" {
+		if n := strings.Count(mutated, m.Find2); n != 1 {
+			res.Outcome, res.Detail = "skipped", fmt.Sprintf("the second text to mutate occurs %d times in %s (source has drifted)", n, m.File)
+			return res
+		}
+		mutated = strings.Replace(mutated, m.Find2, m.Replace2, 1)
+	}
 	tmp, err := os.MkdirTemp("", "verifmut")
 	if err != nil {
 		res.Outcome, res.Detail = "broken", err.Error()
